@@ -7,11 +7,12 @@ part of the public API) is spliced into its caller on the JSON facts before any 
 and appended, parameters become assignments from the arguments, `return` becomes "dest = _0; goto continuation".
 Functions of the table are never inlined, so every anchor keeps its name.  What was inlined is recorded in Facts.inlined (evidence).
 """
-import copy, json, os
+import re, copy, json, os
 
 VERIF = os.path.dirname(os.path.dirname(os.path.abspath(__file__)))
 MAX_BLOCKS = 120
 OPTION_COMBINATORS = {'std::option::Option::<T>::and_then': 'and_then', 'std::option::Option::<T>::map': 'map'}
+FROM_FN = ('std::array::from_fn', 'core::array::from_fn')
 CLOSURE_CALLS = ('std::ops::FnOnce::call_once', 'std::ops::Fn::call', 'std::ops::FnMut::call_mut')
 
 
@@ -131,6 +132,24 @@ def apply(F):
                 if _expand_option_combinator(F, b, bi, K, OPTION_COMBINATORS[t['f']['fn']]):
                     F.inlined.append((name, cn)); touched.add(name); did = True; break
             if not did: break
+    # core::array::from_fn::<T, N, F>(closure) given a NEW closure, N <= 16: expanded to `[clo(0), clo(1), .., clo(N-1)]` with the closure
+    # body spliced in N times, so `from_fn(|r| a[r][0])` and `[a[0][0], a[1][0], ..]` present the same MIR
+    for name, b in list(F.bodies.items()):
+        if name in cand: continue
+        for _ in range(4):
+            did = False
+            for bi, blk in enumerate(b['blocks']):
+                t = blk['term']
+                if t['t'] != 'call' or t['f'].get('o') != 'const' or t['f'].get('fn') not in FROM_FN or len(t['args']) != 1: continue
+                path = _closure_of(b, t['args'][0])
+                if path is None: continue
+                cn = b['crate'] + '::' + path
+                K = F.bodies.get(cn)
+                if K is None or cn in known or len(K['blocks']) > MAX_BLOCKS or K.get('argc') != 2: continue
+                n = _expand_from_fn(F, b, bi, K)
+                if n:
+                    F.inlined.extend([(name, cn)] * n); touched.add(name); did = True; break
+            if not did: break
     for name in sorted(touched):
         b = F.bodies.get(name)
         if b is None: continue
@@ -156,6 +175,22 @@ def apply(F):
     still = {cn for n, b in F.bodies.items() if n not in cand for _, cn in _calls(F, b)}
     for c in cand:
         if c not in still and any(x[1] == c for x in F.inlined):
+            F.bodies.pop(c, None)
+    # likewise a spliced-in NEW closure that no remaining call can reach (every place its value went to was expanded)
+    for c in sorted({x[1] for x in F.inlined if '{closure#' in x[1]}):
+        K = F.bodies.get(c)
+        if K is None or c in known: continue
+        path = c.split('::', 1)[1]
+        used = False
+        for n, b in F.bodies.items():
+            if n == c: continue
+            for blk in b['blocks']:
+                t = blk['term']
+                if t['t'] != 'call': continue
+                if path in (t['f'].get('closures') or []) or any(_closure_of(b, a) == path for a in t['args'] if isinstance(a, dict)):
+                    used = True; break
+            if used: break
+        if not used:
             F.bodies.pop(c, None)
 
 
@@ -401,3 +436,38 @@ def _expand_option_combinator(F, caller, bi, closure, kind):
                             'rv': {'r': 'agg', 'kind': {'a': 'adt', 'path': 'std::option::Option', 'variant': 1, 'vname': 'Some', 'ufield': None}, 'ops': [{'o': 'move', 'p': res}]}, 'span': span})
     caller['blocks'].append({'stmts': after_stmts, 'term': {'t': 'goto', 'to': cont}})
     return _inline_closure_call(F, caller, b_some, closure)
+
+
+def _expand_from_fn(F, caller, bi, closure):
+    """`dest = array::from_fn::<T, N, _>(clo)`  ->  r_k = clo(k) for k in 0..N (closure body spliced in); dest = [r_0, .., r_{N-1}]"""
+    t = caller['blocks'][bi]['term']
+    clo = t['args'][0]
+    cont = t.get('to')
+    if cont is None or clo.get('o') not in ('copy', 'move'): return 0
+    m = re.match(r'^\[(.+); (\d+)\]$', t['dest'].get('ty') or '')
+    if not m or not (1 <= int(m.group(2)) <= 16): return 0
+    n = int(m.group(2))
+    span = t['span']; dest = t['dest']
+    idx_ty = closure['locals'][2]
+    if idx_ty.get('s') != 'usize': return 0
+    res_ty = closure['locals'][0]
+    nl = len(caller['locals']); nb = len(caller['blocks'])
+    for k in range(n):
+        caller['locals'].append({'s': '(usize,)', 't': {'k': 'tuple', 'of': [copy.deepcopy(idx_ty)]}})     # nl + 2k: argument tuple
+        caller['locals'].append(copy.deepcopy(res_ty))                                                    # nl + 2k + 1: element
+    env = copy.deepcopy(clo); env['o'] = 'copy'
+    for k in range(n):
+        const = {'o': 'const', 'ty': {'s': 'usize', 't': {'k': 'int', 's': False, 'bits': 64}}, 'txt': '%d_usize' % k, 'bits': str(k), 'size': 8}
+        tup = {'l': nl + 2 * k, 'proj': [], 'ty': '(usize,)'}
+        stmts = [{'s': 'assign', 'lhs': copy.deepcopy(tup), 'rv': {'r': 'agg', 'kind': {'a': 'tuple'}, 'ops': [const]}, 'span': span}]
+        fake = {'t': 'call', 'f': {'o': 'const', 'fn': 'std::ops::FnMut::call_mut'}, 'args': [copy.deepcopy(env), {'o': 'move', 'p': tup}],
+                'dest': {'l': nl + 2 * k + 1, 'proj': [], 'ty': res_ty['s']}, 'to': nb + k + 1, 'span': span}
+        caller['blocks'].append({'stmts': stmts, 'term': fake})
+    ops = [{'o': 'move', 'p': {'l': nl + 2 * k + 1, 'proj': [], 'ty': res_ty['s']}} for k in range(n)]
+    caller['blocks'].append({'stmts': [{'s': 'assign', 'lhs': copy.deepcopy(dest), 'rv': {'r': 'agg', 'kind': {'a': 'array'}, 'ops': ops}, 'span': span}],
+                             'term': {'t': 'goto', 'to': cont}})
+    caller['blocks'][bi]['term'] = {'t': 'goto', 'to': nb}
+    done = 0
+    for k in range(n):
+        if _inline_closure_call(F, caller, nb + k, closure): done += 1
+    return done
